@@ -460,17 +460,20 @@ class ConcurrentExecutor(ABC, Generic[CallableType, ResultType]):
         def run_in_child_handler():
             return self.execute_item(child_context, executable)
 
-        result: ResultType = child_handler(
-            run_in_child_handler,
-            child_context.state,
-            operation_identifier=operation_identifier,
-            config=ChildConfig(
-                serdes=self.item_serdes or self.serdes,
-                sub_type=self.sub_type_iteration,
-                summary_generator=self.summary_generator,
-            ),
-        )
-        child_context.state.track_replay(operation_id=operation_id)
+        try:
+            result: ResultType = child_handler(
+                run_in_child_handler,
+                child_context.state,
+                operation_identifier=operation_identifier,
+                config=ChildConfig(
+                    serdes=self.item_serdes or self.serdes,
+                    sub_type=self.sub_type_iteration,
+                    summary_generator=self.summary_generator,
+                ),
+            )
+        finally:
+            # also when the replayed branch re-raises its recorded error: it has been visited
+            child_context.state.track_replay(operation_id=operation_id)
         return result
 
     def replay(self, execution_state: ExecutionState, executor_context: DurableContext):
